@@ -96,6 +96,15 @@ theorem isSrcWord_iff {w : Str} : isSrcWord w = true ↔
   simp only [isSrcWord, isPhTok, isCommentTok, isIncludeTok, Bool.and_eq_true, Bool.not_eq_true',
     Bool.or_eq_false_iff, List.all_eq_true, bne_iff_ne, ne_eq, beq_eq_false_iff_ne, and_assoc]
 
+/-- a word that does not begin with `#` does not start like an include directive -/
+theorem startsInclude_of_head {w : Str} (h : w.head? ≠ some '#') : startsInclude w = false := by
+  cases w with
+  | nil => rfl
+  | cons c r =>
+    have hc : c ≠ '#' := fun e => h (by simp [e])
+    have : ('#' == c) = false := by simpa using fun e : '#' = c => hc e.symm
+    simp [startsInclude, List.isPrefixOf, this]
+
 /-! ### domain keys are no placeholder look-alikes -/
 
 theorem domKey_not_ph {s : Str} (h : isDomKey (.str s) = true) :
@@ -329,7 +338,7 @@ theorem formatString_native_three (s : Str) :
     formatString .native s = s ∨ formatString .native s = sq s ∨ formatString .native s = dq s := by
   rw [C04.formatString_def]
   cases s.contains '$' <;> cases isReferenceString s <;> cases s.isEmpty <;> cases s.any isQuote <;>
-    cases s.contains '"' <;> cases s.any isComplexChar <;> simp
+    cases s.contains '"' <;> cases s.any isComplexChar <;> cases startsInclude s <;> simp
 
 theorem writtenLit_str_bare {s : Str} (h : formatString .native s = s) : writtenLit .native (.str s) = .bare s := by
   simp [writtenLit, formatScalar, h]
@@ -364,7 +373,7 @@ theorem isDomStr_iff {s : Str} : isDomStr .native s = true ↔
     isInfix ['/', '/'] s = false ∧ isInfix ['/', '*'] s = false ∧ isInfix kwLit s = false ∧ isInfix kwExpr s = false ∧
     isInfix "COMMENT".toList s = false ∧ isInfix "INCLUDE".toList s = false ∧
     ¬ (s.contains '\'' = true ∧ s.contains '"' = true) ∧
-    (s.isEmpty = true ∨ s.any isQuote = true ∨ s.any isComplexChar = true ∨ isSrcWord s = true) := by
+    (s.isEmpty = true ∨ s.any isQuote = true ∨ s.any isComplexChar = true ∨ isSrcWord s = true ∨ startsInclude s = true) := by
   simp only [isDomStr, Bool.and_eq_true, Bool.not_eq_true', Bool.or_eq_true, List.all_eq_true, bne_iff_ne, ne_eq,
     and_assoc, Bool.and_eq_false_iff, and_true, not_and, Bool.not_eq_true, or_assoc]
   constructor
@@ -400,7 +409,8 @@ theorem formatKey_eq_keyStr {k : Key} (h : isDomKey k = true) : formatKey .nativ
     simp only [isDomKey, Bool.and_eq_true, Bool.not_eq_true'] at h
     obtain ⟨hw, _, _, _, _, hch, _⟩ := isSrcWord_iff.mp h.1.1
     simp only [formatKey, keyStr]
-    refine C04.formatString_of_bare ⟨?_, ?_, ?_⟩
+    have hhash := (isSrcWord_iff.mp h.1.1).2.2.2.2.2.2.2.2
+    refine C04.formatString_of_bare ⟨?_, ?_, ?_, startsInclude_of_head hhash⟩
     · intro hs; subst hs; simp [isWordTok] at hw
     · cases hc : s.contains '$' with
       | false => rfl
@@ -441,7 +451,7 @@ theorem den_writtenLit {x : Scalar} (h : isDomScalar .native x = true) : (writte
   | none => exact C04.C04_format_parse_none (Or.inl rfl)
   | str s =>
     have h : isDomStr .native s = true := h
-    rcases C04.formatString_native_cases (domStr_no_dollar h) with ⟨hf, _, hall⟩ | ⟨hf, _⟩ | ⟨hf, _⟩
+    rcases C04.formatString_native_cases (domStr_no_dollar h) with ⟨hf, _, hall, _⟩ | ⟨hf, _⟩ | ⟨hf, _⟩
     · rw [writtenLit_str_bare hf]
       obtain ⟨hq, _⟩ := (C04.all_plain_iff s).mp hall
       have hq' : ∀ c ∈ s, isQuote c = false := fun c hc => by
@@ -1200,14 +1210,15 @@ theorem written_ok {x : Scalar} (h : isDomScalar .native x = true) : (writtenLit
     have h : isDomStr .native s = true := h
     have hd := domStr_no_dollar h
     obtain ⟨_, _, _, _, _, _, _, hboth, hlast⟩ := isDomStr_iff.mp h
-    rcases C04.formatString_native_cases hd with ⟨hf, hne, hall⟩ | ⟨hf, hc⟩ | ⟨hf, _, hc⟩
+    rcases C04.formatString_native_cases hd with ⟨hf, hne, hall, hinc⟩ | ⟨hf, hc⟩ | ⟨hf, _, hc⟩
     · rw [writtenLit_str_bare hf]
       obtain ⟨hq, hcx⟩ := (C04.all_plain_iff s).mp hall
-      rcases hlast with h1 | h1 | h1 | h1
+      rcases hlast with h1 | h1 | h1 | h1 | h1
       · exact absurd (by simpa using h1) hne
       · rw [hq] at h1; cases h1
       · rw [hcx] at h1; cases h1
       · exact h1
+      · rw [hinc] at h1; cases h1
     · rw [writtenLit_str_sq hf]
       refine domStr_quoted h (by decide) ?_
       rcases hc with rfl | hc | ⟨_, hc⟩
